@@ -280,7 +280,8 @@ def replay(run, prop, path):
         print("VIOLATION property=%s replay=%s" % (prop, path))
         return 1
     events = vlib.load_events(tpath)
-    ok, line, detail, _ = run.validate("BrokerTrace", "BrokerTrace.cfg", tpath)
+    spec = rp.get("tracespec", "BrokerTrace")      # scripts with lagging gossip are judged by ViewTrace.tla (C14)
+    ok, line, detail, _ = run.validate(spec, spec + ".cfg", tpath)
     if ok:
         print("replay: accepted (no violation)")
         return 0
